@@ -24,9 +24,9 @@ func init() {
 		Rule: "fault enumeration: conflict kind (7: equal ANP priorities, ANP priority outside 0..1000, duplicate ANP name, duplicate NetworkPolicy name in one namespace, two BANPs, BANP not named default, pods of one owner with different labels) x number of other admin policies {0,1,2,3,5,8,11,12,13,20,31,64,200} x position of the conflicting documents {first,last,adjacent,far apart,median} x route {list, diff with the conflict in dir1, in dir2}, file placement random; " +
 			"each cell is run with the conflict (expected: error returned, no connections, a fatal entry in Errors(), message naming the conflict) and as a conflict-free twin (expected: clean analysis), so an oracle that fires on everything is caught; " +
 			"non-trivial = the conflict-free twin analysed cleanly with a non-empty report; distinct = cell + filler hash",
-		Assumptions: []string{"'naming the conflict' = the message contains one of the conflicting resource names, the offending priority value, or the words baseline/default for the BANP kinds", "exposure mode is out of scope (it rejects every ANP)"},
-		NumCases:    func(tier string, _ int64) int { return tierN(tier, c19Cells(), c19Cells()*12) },
-		Run:         runC19,
+		Assumptions:       []string{"'naming the conflict' = the message contains one of the conflicting resource names, the offending priority value, or the words baseline/default for the BANP kinds", "exposure mode is out of scope (it rejects every ANP)"},
+		NumCases:          func(tier string, _ int64) int { return tierN(tier, c19Cells(), c19Cells()*12) },
+		Run:               runC19,
 		MinNonTrivial:     500,
 		MinEffectiveShare: 0.8,
 		RequiredEvents:    map[string]int64{"conflict_runs": 1000, "twin_runs_clean": 1000, "rejected_with_identifying_message": 1000, "cells_n_ge_12": 300},
@@ -121,7 +121,9 @@ func runC19(c *run.Ctx) {
 	// conflicting documents
 	var conflict []world.Doc
 	tokens := []string{}
-	anpDoc := func(a world.ANP) world.Doc { return world.Doc{Kind: "AdminNetworkPolicy", Name: a.Name, YAML: world.ANPYAML(&a)} }
+	anpDoc := func(a world.ANP) world.Doc {
+		return world.Doc{Kind: "AdminNetworkPolicy", Name: a.Name, YAML: world.ANPYAML(&a)}
+	}
 	switch kind {
 	case "anp-same-priority":
 		p := pris[n]
